@@ -408,41 +408,25 @@ func (m *MemMapFs) Chmod(name string, mode os.FileMode) error {
 	mode &= chmodBits
 	name = normalizePath(name)
 
-	m.mu.RLock()
+	// look the file up and change it in one critical section: a Rename or Remove in between
+	// would let the change land on a file that no longer has this name
+	m.mu.Lock()
+	defer m.mu.Unlock()
 	f, ok := m.getData()[name]
-	m.mu.RUnlock()
 	if !ok {
 		return &os.PathError{Op: "chmod", Path: name, Err: ErrFileNotFound}
 	}
 	prevOtherBits := mem.GetFileInfo(f).Mode() & ^chmodBits
-
-	mode = prevOtherBits | mode
-	return m.setFileMode(name, mode)
-}
-
-func (m *MemMapFs) setFileMode(name string, mode os.FileMode) error {
-	name = normalizePath(name)
-
-	m.mu.RLock()
-	f, ok := m.getData()[name]
-	m.mu.RUnlock()
-	if !ok {
-		return &os.PathError{Op: "chmod", Path: name, Err: ErrFileNotFound}
-	}
-
-	m.mu.Lock()
-	mem.SetMode(f, mode)
-	m.mu.Unlock()
-
+	mem.SetMode(f, prevOtherBits|mode)
 	return nil
 }
 
 func (m *MemMapFs) Chown(name string, uid, gid int) error {
 	name = normalizePath(name)
 
-	m.mu.RLock()
+	m.mu.Lock()
+	defer m.mu.Unlock()
 	f, ok := m.getData()[name]
-	m.mu.RUnlock()
 	if !ok {
 		return &os.PathError{Op: "chown", Path: name, Err: ErrFileNotFound}
 	}
@@ -456,16 +440,14 @@ func (m *MemMapFs) Chown(name string, uid, gid int) error {
 func (m *MemMapFs) Chtimes(name string, atime time.Time, mtime time.Time) error {
 	name = normalizePath(name)
 
-	m.mu.RLock()
+	m.mu.Lock()
+	defer m.mu.Unlock()
 	f, ok := m.getData()[name]
-	m.mu.RUnlock()
 	if !ok {
 		return &os.PathError{Op: "chtimes", Path: name, Err: ErrFileNotFound}
 	}
 
-	m.mu.Lock()
 	mem.SetModTime(f, mtime)
-	m.mu.Unlock()
 
 	return nil
 }
